@@ -60,6 +60,7 @@ fn plan_json(facts: &ProgramFacts, plan: Option<&OptimizationPlan>) -> J {
 
 struct Req<'a> {
     src: &'a str,
+    filename: &'a str,
     ev: u32,
     want_plan: bool,
     render: bool,
@@ -80,7 +81,7 @@ fn run_lib(req: &Req, frame_on: bool, plan_on: bool) -> J {
     if !perr.diagnostics.is_empty() {
         let mut r = json!({"st": "parse_error", "diags": diags_json(perr, src)});
         if req.render {
-            r["rendered"] = json!(perr.render_ansi(src, "t.ns").to_string());
+            r["stdout"] = json!(perr.render_ansi(src, req.filename).to_string());
         }
         return r;
     }
@@ -90,7 +91,7 @@ fn run_lib(req: &Req, frame_on: bool, plan_on: bool) -> J {
     if resolver.errors.has_errors() {
         let mut r = json!({"st": "static_error", "diags": diags});
         if req.render {
-            r["rendered"] = json!(resolver.errors.render_ansi(src, "t.ns").to_string());
+            r["stdout"] = json!(resolver.errors.render_ansi(src, req.filename).to_string());
         }
         return r;
     }
@@ -110,8 +111,16 @@ fn run_lib(req: &Req, frame_on: bool, plan_on: bool) -> J {
         .find(|d| d.severity == Severity::Error)
         .map_or("done", |d| d.message);
     diags.extend(diags_json(&rt.errors, src));
-    let mut r = json!({"st": st, "out": out, "diags": diags, "events": events_json(evs), "plan": pj});
+    let printed: Vec<String> = rt.output.iter().map(|v| v.to_string()).collect();
+    let mut r = json!({"st": st, "out": out, "diags": diags, "events": events_json(evs), "plan": pj, "printed": printed});
     if req.render {
+        let mut stdout = resolver.errors.render_ansi(src, req.filename).to_string();
+        for p in r["printed"].as_array().unwrap() {
+            stdout.push_str(p.as_str().unwrap());
+            stdout.push('\n');
+        }
+        stdout.push_str(&rt.errors.render_ansi(src, req.filename));
+        r["stdout"] = json!(stdout);
         r["rendered"] = json!(format!(
             "{}{}",
             resolver.errors.render_ansi(src, "t.ns"),
@@ -124,6 +133,17 @@ fn run_lib(req: &Req, frame_on: bool, plan_on: bool) -> J {
 /// Replica of the shipped pipeline (`src/bin/naija/cmd.rs::run_source`, `wasm/src/lib.rs`):
 /// two global scratch arenas shared between parser, resolver and runtime.
 fn run_cli(req: &Req) -> J {
+    if req.ev != 0 {
+        naijascript::verif::start(req.ev);
+    }
+    let r = run_cli_inner(req);
+    let evs = if req.ev != 0 { naijascript::verif::take() } else { Vec::new() };
+    let mut r = r;
+    r["events"] = json!(events_json(evs));
+    r
+}
+
+fn run_cli_inner(req: &Req) -> J {
     arena::init(SCRATCH_ARENA).unwrap();
     let arena = scratch_arena(None);
     let src = req.src;
@@ -131,24 +151,22 @@ fn run_cli(req: &Req) -> J {
     let mut parser = Parser::new(lexer, &arena);
     let (root, perr) = parser.parse_program();
     if !perr.diagnostics.is_empty() {
-        return json!({"st": "parse_error", "diags": diags_json(perr, src)});
+        return json!({"st": "parse_error", "diags": diags_json(perr, src), "stdout": perr.render_ansi(src, req.filename).to_string()});
     }
     let res_arena = scratch_arena(Some(&arena));
     let mut resolver = Resolver::with_facts_arena(&res_arena, &arena);
     resolver.resolve(root);
     let mut diags = diags_json(&resolver.errors, src);
+    let static_text = resolver.errors.render_ansi(src, req.filename).to_string();
     if resolver.errors.has_errors() {
-        return json!({"st": "static_error", "diags": diags});
+        return json!({"st": "static_error", "diags": diags, "stdout": static_text});
     }
     let (facts, plan) = resolver.into_artifacts();
     let frame = scratch_arena(Some(&arena));
     let mut rt = Runtime::new(&arena, Some(&frame));
-    if req.ev != 0 {
-        naijascript::verif::start(req.ev);
-    }
     rt.run_with_analysis(root, &facts, plan.as_ref());
-    let evs = if req.ev != 0 { naijascript::verif::take() } else { Vec::new() };
     let out: Vec<J> = rt.output.iter().map(value_json).collect();
+    let printed: Vec<String> = rt.output.iter().map(|v| v.to_string()).collect();
     let st = rt
         .errors
         .diagnostics
@@ -156,7 +174,14 @@ fn run_cli(req: &Req) -> J {
         .find(|d| d.severity == Severity::Error)
         .map_or("done", |d| d.message);
     diags.extend(diags_json(&rt.errors, src));
-    json!({"st": st, "out": out, "diags": diags, "events": events_json(evs)})
+    // what the shipped binary prints: static warnings, the shouted values, runtime diagnostics
+    let mut stdout = static_text;
+    for p in &printed {
+        stdout.push_str(p);
+        stdout.push('\n');
+    }
+    stdout.push_str(&rt.errors.render_ansi(src, req.filename));
+    json!({"st": st, "out": out, "diags": diags, "printed": printed, "stdout": stdout})
 }
 
 pub fn worker() {
@@ -172,6 +197,7 @@ pub fn worker() {
         let src = j["src"].as_str().unwrap_or("");
         let req = Req {
             src,
+            filename: j["filename"].as_str().unwrap_or("t.ns"),
             ev: j["ev"].as_u64().unwrap_or(0) as u32,
             want_plan: j["plan"].as_bool().unwrap_or(false),
             render: j["render"].as_bool().unwrap_or(false),
